@@ -179,7 +179,7 @@ def rule_default(E, R):
     else:
         R.cannot(rule, fs, "anchor not found")
     if hg:
-        t = tail(hg["body"])
+        t = fn_result(hg)
         R.check(t.get("k") == "Field" and t.get("name") == "max_nesting_depth", rule, fg, "getter reads the same field", where=hg["span"])
     # new() uses the default settings
     hn = E.hir("ast::parse::FilterParser::new")
